@@ -173,6 +173,7 @@ func runC13(c *Ctx) {
 	}
 
 	c13R11(c)
+	c13R12(c)
 
 	r5 := c.R.Rule("R5", "K2 running flag untouched by the reconfigure helpers", 2)
 	runningF := c.Field(r5, pProc, "Instance", "running")
@@ -1066,4 +1067,37 @@ func c16R12(c *Ctx) {
 		}
 	}
 	c.R.Check(n >= 1, r, "applyInPlace: incomplete returns behind the commit", c.Pos(fn.Pos()), "found", "no return other than `true, nil` found behind the commit import", true)
+}
+
+// c13R12: F76. A live reconfigure builds the replacement processor while the one it replaces is still running
+// (open-before-teardown) — for a standalone (WASM) processor that means two module instances for the SAME processor id
+// are alive at once, and the wazero runtime refuses a second live module with the same name. The instance name must
+// therefore not be the bare processor id.
+func c13R12(c *Ctx) {
+	r := c.R.Rule("R12", "K6 a standalone processor can be reconfigured live: the wazero module instance name newWASMProcessor configures (ModuleConfig.WithName) is computed per instantiation, not the bare processor id parameter", 1)
+	const pStandalone = "pkg/plugin/processor/standalone"
+	fn := c.SSA(r, pStandalone, "newWASMProcessor")
+	if fn == nil {
+		return
+	}
+	var idParam ssa.Value
+	for _, prm := range fn.Params {
+		if prm.Name() == "id" {
+			idParam = prm
+		}
+	}
+	n := 0
+	for _, b := range fn.Blocks {
+		for _, in := range b.Instrs {
+			ci, ok := in.(ssa.CallInstruction)
+			if !ok || !ci.Common().IsInvoke() || ci.Common().Method.Name() != "WithName" {
+				continue
+			}
+			n++
+			arg := ci.Common().Args[0]
+			bare := idParam != nil && (arg == idParam || kit.IsVar(arg, idParam))
+			c.R.Check(!bare, r, "newWASMProcessor: the module instance name is unique per instantiation", c.Pos(ci.Pos()), "computed name", "the WASM module instance is named after the processor id alone: a live reconfigure instantiates the replacement for the same id while the old module is still running, wazero refuses it ('module[<id>] has already been instantiated'), MakeRunnableProcessorForReconfigure always fails and the in-place apply is rolled back — a standalone processor can never be reconfigured live", true)
+		}
+	}
+	c.R.Check(n >= 1, r, "newWASMProcessor: ModuleConfig.WithName", c.Pos(fn.Pos()), "found", "no WithName call found in newWASMProcessor", true)
 }
